@@ -101,12 +101,22 @@ func New(prop string) *Run {
 	}
 	r.loadFindings()
 	// Replays of an earlier run at this seed would be mistaken for this run's.
-	if old, _ := filepath.Glob(filepath.Join(Root, "replays", fmt.Sprintf("%s-%d-*.json", r.Prop, r.Seed))); len(old) > 0 {
+	if old, _ := filepath.Glob(filepath.Join(outDir("replays"), fmt.Sprintf("%s-%d-*.json", r.Prop, r.Seed))); len(old) > 0 {
 		for _, f := range old {
 			os.Remove(f)
 		}
 	}
 	return r
+}
+
+// outDir is where evidence/ and replays/ go: /verif normally, the alternative
+// build directory when the monitors run against another checkout (VERIF_OUT),
+// so that trying a seeded change never overwrites the real evidence.
+func outDir(sub string) string {
+	if d := os.Getenv("VERIF_OUT"); d != "" {
+		return filepath.Join(d, sub)
+	}
+	return filepath.Join(Root, sub)
 }
 
 // ReadJSON decodes a JSON file.
@@ -279,7 +289,7 @@ func (r *Run) Violation(class, what string, detail any) {
 		return
 	}
 	v := Violation{Class: class, What: what, Detail: detail}
-	dir := filepath.Join(Root, "replays")
+	dir := outDir("replays")
 	os.MkdirAll(dir, 0o755)
 	p := filepath.Join(dir, fmt.Sprintf("%s-%d-%d.json", r.Prop, r.Seed, len(r.violations)))
 	b, _ := json.MarshalIndent(map[string]any{
@@ -360,8 +370,8 @@ func (r *Run) Finish() {
 		evd["assumptions"] = []string{}
 	}
 	b, _ := json.MarshalIndent(evd, "", " ")
-	os.MkdirAll(filepath.Join(Root, "evidence"), 0o755)
-	if err := os.WriteFile(filepath.Join(Root, "evidence", r.Prop+".json"), b, 0o644); err != nil {
+	os.MkdirAll(outDir("evidence"), 0o755)
+	if err := os.WriteFile(filepath.Join(outDir("evidence"), r.Prop+".json"), b, 0o644); err != nil {
 		fmt.Fprintln(os.Stderr, "cannot write evidence:", err)
 	}
 	for _, f := range r.findings {
